@@ -1,6 +1,7 @@
 import SppModel.Lemmas.KernelLink
 import SppModel.Lemmas.Loop
 import SppModel.Generated.LoopKernels
+import SppModel.Frozen.LoopKernels
 /-!
 # Kernel specification — `kernels.remove_zerodm` as translated computes its definition (C07)
 
@@ -11,10 +12,10 @@ of an index expression, a loop bound or an operand in the source changes the gen
 the proof.
 -/
 namespace SppModel.KernelSpecs
-open SppModel SppModel.Loop SppModel.Generated.LoopKernels SppModel.KernelSpecs.LinkB
+open SppModel SppModel.Loop SppModel.Frozen.LoopKernels SppModel.KernelSpecs.LinkB
 
 /-- the kernel was recognised by the translator on this run -/
-theorem remove_zerodm_translated : ∀ f ∈ translationFailures, f.1 ∉ ["kernels_py_loops", "loop_remove_zerodm"] := by decide
+theorem remove_zerodm_translated : ∀ f ∈ Generated.LoopKernels.translationFailures, f.1 ∉ ["kernels_py_loops", "loop_remove_zerodm"] := by decide
 
 /-- `remove_zerodm`: `out[C*t + c] = in[C*t + c] - (Σ_c' in[C*t + c']) * w[c] + bp[c]` -/
 theorem remove_zerodm_spec (inp out bp w : Nat → Rat) (C n k : Nat) :
@@ -62,7 +63,7 @@ theorem zerodm_block_link (flat : List Int) (C : Nat) (b : Plan.Blk) (bpass : Li
 /-- the executable twin run by the correspondence check (`K` requests of the driver) is the same function:
     it only tabulates the loop state after each iteration (`Loop.forRangeM_eq`) -/
 theorem remove_zerodm_exec_eq (memo : Nat) (inp out bp w : Nat → Rat) (C n : Nat) :
-    remove_zerodm_exec memo inp out bp w C n = remove_zerodm inp out bp w C n := by
-  simp only [remove_zerodm_exec, remove_zerodm, Loop.forRangeM_eq]
+    Generated.LoopKernels.remove_zerodm_exec memo inp out bp w C n = Generated.LoopKernels.remove_zerodm inp out bp w C n := by
+  simp only [Generated.LoopKernels.remove_zerodm_exec, Generated.LoopKernels.remove_zerodm, Loop.forRangeM_eq]
 
 end SppModel.KernelSpecs
